@@ -10,6 +10,9 @@
 (c)  E1: the real ``schema.as_state_machine()`` run through ``get_state_machine_test(...).hypothesis.inner_test`` with the
      choice-tree explorer owning every rule choice and data draw, 3 steps, scripted in-process API; the recorded traffic is
      judged against the reference evaluation of the link's expressions on the actual source exchange.
+Review round 2 (enumerators in mc/c10_extra.py, record in detection/C10.md): names in another letter case, more pointer tokens,
+a 7th context, statuses at the range limits and the 3.1 / Swagger 2.0 spellings in (b), constant / falsy link values and a header
+key in another letter case in (c).
 """
 
 from __future__ import annotations
@@ -22,7 +25,7 @@ import re
 from typing import Any
 from urllib.parse import parse_qsl, unquote, urlsplit
 
-from mc import httpseam
+from mc import c10_extra, httpseam
 from mc.choicetree import Alphabet, Stats, explore
 from mc.runner import Result
 from oracles import rtexpr
@@ -38,16 +41,21 @@ RULE = (
     "two-group/zero-group), embedded {..} forms with prefix/suffix and pairs, and ALL single-character deletions and insertions "
     "(from the syntax alphabet . $ { } # / ~ x space) of representative expressions; each string is evaluated by the real "
     "evaluate() in 6 (request,response) contexts and is put into 3 real link positions. (b) work item = ordered response-key set "
-    "x one or two links on its keys; all 5 statuses. (c) work item = link shape x response script (2 of 7 scripted responses) x "
+    "x one or two links on its keys; all 10 statuses, 3 document spellings. (c) work item = link shape x response script (2 of 7 scripted responses) x "
     "generation modes; every choice path of the real state machine with <=d non-default answers, 3 steps. A case is non-trivial "
     "when the reference gives a verdict (value, unresolved or malformed - not undecided); distinct = distinct (string, context) / "
-    "(key set, links, status) / (shape, script, choice path)."
+    "(key set, links, status) / (shape, script, choice path). Review round 2 (mc/c10_extra.py): names in another letter case, "
+    "pointer tokens 1/2/3/10/11 and member names with space / non-ASCII / '.' / '#' / '$', a 7th context (falsy leaves under the "
+    "response root, falsy whole request body, list-valued query, upper-case header names), statuses at the NXX limits and the "
+    "OpenAPI 3.1 / Swagger 2.0 (x-links) spelling of every (b) document, constant and falsy link parameter / requestBody values."
 )
 BOUNDS = {
-    "quick": {"pointer_depth": 2, "contexts": 6, "c_steps": 3, "c_deviations": 1, "c_max_exec_per_tree": 150, "c_scripts": 49,
-              "b_keys": 6, "b_statuses": 5},
-    "thorough": {"pointer_depth": 3, "contexts": 6, "c_steps": 4, "c_deviations": 2, "c_max_exec_per_tree": 3000, "c_scripts": 49,
-                 "b_keys": 6, "b_statuses": 5},
+    "quick": {"pointer_depth": 2, "contexts": 7, "c_steps": 3, "c_deviations": 1, "c_max_exec_per_tree": 150, "c_scripts": 49,
+              "c_extra_shapes": len(c10_extra.EXTRA_SHAPES), "c_extra_scripts": len(c10_extra.EXTRA_SCRIPTS),
+              "b_keys": 6, "b_statuses": 10, "b_specs": 3},
+    "thorough": {"pointer_depth": 3, "contexts": 7, "c_steps": 4, "c_deviations": 2, "c_max_exec_per_tree": 3000, "c_scripts": 49,
+                 "c_extra_shapes": len(c10_extra.EXTRA_SHAPES), "c_extra_scripts": len(c10_extra.EXTRA_SCRIPTS),
+                 "b_keys": 6, "b_statuses": 10, "b_specs": 3},
 }
 BUDGET_S = {"quick": 140, "thorough": 2400}
 CHUNK = 1
@@ -71,6 +79,8 @@ ASSUMPTIONS = [
     "cases the OpenAPI text leaves open are counted as undecided and never reported: '}' inside pointers/names (documented "
     "limitation), names with syntax characters, $response.query/path, the type of path/query/status values and of a lone "
     "'{expr}', stringification of non-string embedded values, null link values, NXX vs explicit code precedence, multi-valued headers",
+    "header names (in `$request.header.X` / `$response.header.X` and in a link parameter key `header.X`) denote the same header in any "
+    "letter case (RFC 7230 3.2, OpenAPI 'in: header'); query, path and cookie names are compared exactly",
     "raising at evaluation time for a derivable expression whose source value does not exist is accepted as 'unresolvable'",
     "(b) reads usability from the real rule precondition after Hypothesis' own _add_results_to_targets hook, not from a full run",
     "(c) the recorder's transition id is used to select which link definition the derived request is judged against; source and "
@@ -89,7 +99,7 @@ PTR_TOKENS_QUICK = ["a", "a~1b", "a~0b", "a~01b", "0", "", "x}", "-1", "01", "-"
 PTR_TOKENS_THOROUGH = ["a", "a~1b", "a~0b", "a~01b", "0", "", "x}", "-1", "01", "-", "b"]
 REGEXES = ["#regex:(\\d+)", "#regex:(\\d+", "#regex:(\\w)-(\\d+)", "#regex:\\d+"]
 INSERT_CHARS = [".", "$", "{", "}", "#", "/", "~", "x", " "]
-KEYS = ["a", "a/b", "a~b", "a~1b", "0", "", "x}", "x", "01", "-1", "-"]
+KEYS = ["a", "a/b", "a~b", "a~1b", "0", "", "x}", "x", "01", "-1", "-"] + c10_extra.EXTRA_KEYS  # (new keys appended: old leaves unchanged)
 
 CORRUPTION_BASES = [
     "$url", "$method", "$statusCode", "$request.path.id", "$request.query.id", "$request.header.X-Id", "$response.header.X-Id",
@@ -166,6 +176,8 @@ def all_strings(tier: str) -> list[str]:
             add("{" + e1 + "}-{" + e2 + "}")
     for s in EXTRA_STRINGS:
         add(s)
+    for s in c10_extra.name_case_strings() + c10_extra.pointer_extra_strings():
+        add(s)
     for e in CORRUPTION_BASES:
         for s in one_edits(e):
             add(s)
@@ -239,6 +251,8 @@ CONTEXTS: list[dict] = [
         "url": BASE + "/src/9/v?id=44",
     },
 ]
+
+CONTEXTS += c10_extra.extra_contexts(BASE)
 
 A_DOC_PARAMS = (
     [{"name": n, "in": "path", "required": True, "schema": {}} for n in NAMES]
@@ -395,6 +409,9 @@ def expression_facts(text: str, exchange: Exchange) -> dict:
     return {"feature": feature, **extra}
 
 
+_ROUND2_STRINGS = frozenset(c10_extra.name_case_strings() + c10_extra.pointer_extra_strings())
+
+
 def _typename(v: Any) -> str:
     return type(v).__name__
 
@@ -446,6 +463,10 @@ def check_a(item: dict, tier: str, res: Result) -> None:
                 res.violation({"part": "a", "kind": "value_mismatch", **facts}, detail)
             else:
                 res.count("a_values_agree")
+                if ctx["name"] == "falsy_response_list_query_upper_headers":
+                    res.count("a_values_agree_in_round2_context")
+                if text in _ROUND2_STRINGS:
+                    res.count("a_values_agree_on_round2_strings")
         if len(res.samples) < 2 and cls == "derivable":
             res.samples.append({"part": "a", "expression": text, "context": contexts[0][0]["name"],
                                 "reference": _plain(_reference(text, contexts[0][1])),
@@ -458,7 +479,19 @@ def _unknown_request_parameter(text: str) -> bool:
     except (Malformed, Undecided):
         return False
     exprs = [parsed] if kind == "expression" else [p for p in parsed if isinstance(p, rtexpr.Expr)] if kind == "template" else []
-    return any(e.kind in ("req_path", "req_query", "req_header") and e.name not in NAMES for e in exprs)
+    # query / path names are case-sensitive; a header is the same header in any letter case (RFC 7230 3.2, OpenAPI "in: header")
+    return any((e.kind in ("req_path", "req_query") and e.name not in NAMES)
+               or (e.kind == "req_header" and e.name.lower() not in {n.lower() for n in NAMES}) for e in exprs)
+
+
+def _header_only_case_differs(text: str) -> bool:
+    """Fact for signatures: the string names a declared request header, spelled in another letter case than the declaration."""
+    try:
+        kind, parsed = rtexpr.parse_value(text)
+    except (Malformed, Undecided):
+        return False
+    exprs = [parsed] if kind == "expression" else [p for p in parsed if isinstance(p, rtexpr.Expr)] if kind == "template" else []
+    return any(e.kind == "req_header" and e.name not in NAMES and e.name.lower() in {n.lower() for n in NAMES} for e in exprs)
 
 
 def _plain(t: Any) -> Any:
@@ -513,6 +546,8 @@ def check_a_link(item: dict, tier: str, res: Result) -> None:
                 res.count("a_link_undecided")
                 continue
             res.nontriv(["a_link", s, pos])
+            if _header_only_case_differs(s):
+                res.count("a_link_header_case_variants")
             detail = {"string": s, "position": pos, "reference": [cls, why], "link": links[key], "implementation": list(got)}
             if cls == "malformed":
                 try:
@@ -533,8 +568,9 @@ def check_a_link(item: dict, tier: str, res: Result) -> None:
                 if got[0] == "rejected" and _unknown_request_parameter(s):
                     res.count("a_link_rejected_unknown_source_parameter")  # a legitimate schema error of its own
                 elif got[0] == "rejected":
+                    case_fact = {"header_name_case": "differs_from_declaration"} if _header_only_case_differs(s) else {}
                     res.violation({"part": "a_link", "kind": "derivable_expression_rejected", "position": pos,
-                                   **expression_facts(s, exchange)}, detail)
+                                   **expression_facts(s, exchange), **case_fact}, detail)
                 else:
                     res.count("a_link_derivable_accepted")
     # one representative per chunk through the public entry point: the whole state machine must refuse to build
@@ -561,7 +597,7 @@ def check_a_link(item: dict, tier: str, res: Result) -> None:
 # ======================================================================================================================
 
 B_KEYS: list[Any] = ["200", "201", "2XX", "4XX", "default", 200]
-B_STATUSES = [200, 201, 204, 404, 500]
+B_STATUSES = [200, 201, 204, 404, 500] + c10_extra.EXTRA_STATUSES  # + exactly at the limits of 1XX/2XX/3XX/4XX
 
 
 def b_items() -> list[dict]:
@@ -595,6 +631,24 @@ def b_document(keys: list, link_keys: list) -> dict:
 
 
 def check_b(item: dict, tier: str, res: Result) -> None:
+    # the same document as OpenAPI 3.0 / 3.1 / Swagger 2.0 (`x-links`); a violation already reported for the 3.0 spelling of the
+    # same (kind, status, link) is only counted for the other spellings (one defect in all spellings = one set of signatures)
+    reported: set = set()
+    for spec in c10_extra.SPECS:
+        common.reset_schemathesis_caches()
+        _reset_expression_caches()
+        _check_b_spec(item, spec, res, reported)
+
+
+def _check_b_spec(item: dict, spec: str, res: Result, reported: set) -> None:
+    def violation(key: tuple, signature: dict, detail: dict) -> None:
+        if spec == "3.0.3":
+            reported.add(key)
+        elif key in reported:
+            res.count("b_violations_repeated_in_other_spelling")
+            return
+        res.violation(signature, detail)
+
     import collections
 
     import requests
@@ -608,11 +662,14 @@ def check_b(item: dict, tier: str, res: Result) -> None:
     keys = [B_KEYS[i] for i in item["keys"]]
     link_keys = [B_KEYS[i] for i in item["links"]]
     has_int = any(isinstance(k, int) for k in keys)
-    base_sig = {"part": "b", "links": len(link_keys)}
-    detail0 = {"keys": [repr(k) for k in keys], "link_keys": [repr(k) for k in link_keys]}
+    # the spelling is a signature fact only where it is not the base one
+    spec_fact = {} if spec == "3.0.3" else {"spec": spec}
+    base_sig = {"part": "b", "links": len(link_keys), **spec_fact}
+    detail0 = {"keys": [repr(k) for k in keys], "link_keys": [repr(k) for k in link_keys], "spec": spec}
     res.evaluations += 1
+    res.count(f"b_documents_{spec}")
     try:
-        schema = engine.load_schema(b_document(keys, link_keys))
+        schema = engine.load_schema(b_document(keys, link_keys) if spec == "3.0.3" else c10_extra.b_document(keys, link_keys, spec))
         machine_cls = schema.as_state_machine()
         source = schema["/s"]["POST"]
     except Exception as exc:  # noqa: BLE001
@@ -620,8 +677,8 @@ def check_b(item: dict, tier: str, res: Result) -> None:
         if has_int:
             res.count("b_undecided_int_key_construction_error")
         else:
-            res.violation({**base_sig, "kind": "state_machine_construction_failed", "error": type(exc).__name__},
-                          {**detail0, "error": repr(exc)[:300]})
+            violation(("state_machine_construction_failed", type(exc).__name__),
+                      {**base_sig, "kind": "state_machine_construction_failed", "error": type(exc).__name__}, {**detail0, "error": repr(exc)[:300]})
         return
     rules = {}
     for rule in machine_cls.setup_state().rules:
@@ -629,7 +686,8 @@ def check_b(item: dict, tier: str, res: Result) -> None:
             if f"_LNK{n}_" in rule.function.__name__:
                 rules[n] = rule
     if len(rules) != len(link_keys):
-        res.violation({**base_sig, "kind": "link_rule_missing", "int_key": has_int}, {**detail0, "rules": [r.function.__name__ for r in machine_cls.setup_state().rules]})
+        violation(("link_rule_missing",), {**base_sig, "kind": "link_rule_missing", "int_key": has_int},
+                  {**detail0, "rules": [r.function.__name__ for r in machine_cls.setup_state().rules]})
         return
     for status in B_STATUSES:
         machine = machine_cls()
@@ -658,11 +716,16 @@ def check_b(item: dict, tier: str, res: Result) -> None:
                 if others:
                     facts["other_link_key_kind"] = rtexpr.key_kind(others[0])
                     facts["other_link_documented_first"] = keys.index(others[0]) < keys.index(key)
-                res.violation({"part": "b", "kind": "matching_link_not_usable", **facts}, detail)
+                violation(("matching_link_not_usable", status, n), {"part": "b", "kind": "matching_link_not_usable", **facts, **spec_fact}, detail)
             elif usable and not expected:
-                res.violation({"part": "b", "kind": "non_matching_link_usable", **facts, "status_class": f"{status // 100}xx"}, detail)
+                violation(("non_matching_link_usable", status, n),
+                          {"part": "b", "kind": "non_matching_link_usable", **facts, "status_class": f"{status // 100}xx", **spec_fact}, detail)
             else:
                 res.count("b_agree_usable" if usable else "b_agree_not_usable")
+                if status in c10_extra.EXTRA_STATUSES:
+                    res.count("b_agree_usable_at_range_limit" if usable else "b_agree_not_usable_at_range_limit")
+                if spec != "3.0.3":
+                    res.count(f"b_agree_{spec}_usable" if usable else f"b_agree_{spec}_not_usable")
         machine.teardown()
 
 
@@ -737,6 +800,10 @@ SHAPES: dict[str, dict] = {
               "read_links": {"200": {"R": _lnk("remove", {"id": "$request.path.id"})},
                              "201": {"S": _lnk("remove", {"path.id": "{$response.body#/id}"})}}},
 }
+
+
+# review round 2: constant / falsy link values (mc/c10_extra.py)
+SHAPES.update(copy.deepcopy(c10_extra.EXTRA_SHAPES))
 
 
 def c_document(shape: dict) -> dict:
@@ -855,6 +922,8 @@ def c_items(tier: str) -> list[dict]:
     out = []
     n = len(RESPONSES)
     for name in SHAPES:
+        if name in c10_extra.EXTRA_SHAPES:
+            continue
         for r0 in range(n):
             for r1 in range(n):
                 out.append({"part": "c", "shape": name, "script": [r0, r1], "modes": "P"})
@@ -862,6 +931,12 @@ def c_items(tier: str) -> list[dict]:
     for name in ("opref_explicit", "body_nested_merge", "body_literal_nomerge"):
         for r0 in (0, 2, 4):
             out.append({"part": "c", "shape": name, "script": [r0, 0], "modes": "PN"})
+    # constant / falsy link values: the value does not depend on the response, three scripts are enough
+    for name in c10_extra.EXTRA_SHAPES:
+        for script in c10_extra.EXTRA_SCRIPTS:
+            out.append({"part": "c", "shape": name, "script": list(script), "modes": "P"})
+    out.append({"part": "c", "shape": "constants_qualified", "script": [0, 0], "modes": "PN"})
+    out.append({"part": "c", "shape": "body_zero", "script": [0, 0], "modes": "PN"})
     return out
 
 
@@ -952,11 +1027,14 @@ def judge_c(res: Result, item: dict, doc: dict, exchanges: list, machine: Any, e
             if s in text:
                 res.violation({"part": "c", "kind": "sentinel_sent", "sentinel": s}, base_detail | {"request": e.as_json()})
     followed_from: set[int] = set()
+    uses: dict[tuple, int] = {}
     for case_id, node in machine.recorder.cases.items():
         if node.transition is None:
             res.count("c_root_steps")
             continue
         res.count("c_links_followed")
+        if item["shape"] in c10_extra.EXTRA_SHAPES:
+            res.count("c_round2_followed:" + item["shape"])
         child = by_case.get(case_id)
         parent = by_case.get(node.transition.parent_id)
         m = _TRANSITION_ID.match(node.transition.id)
@@ -978,6 +1056,9 @@ def judge_c(res: Result, item: dict, doc: dict, exchanges: list, machine: Any, e
             res.violation({"part": "c", "kind": "derived_request_without_prior_source_response"}, base_detail | {"transition": node.transition.id})
             continue
         followed_from.add(parent.index)
+        uses[(parent.index, node.transition.id)] = uses.get((parent.index, node.transition.id), 0) + 1
+        if uses[(parent.index, node.transition.id)] == 2:
+            res.count("c_same_link_followed_twice_from_one_source")  # second use = a hit in the link's per-case cache
         src = match_template(parent.method, urlsplit(parent.url).path)
         source_label, key, link_name, target_label = m["source"], m["key"], m["name"], m["target"]
         if src is None or src[1] != source_label:
@@ -1052,11 +1133,17 @@ def judge_c(res: Result, item: dict, doc: dict, exchanges: list, machine: Any, e
             if location == "header":
                 case_container = {k.lower(): v for k, v in dict(case_container).items()}
             case_value = case_container.get(name.lower() if location == "header" else name, ABSENT)
-            facts = expression_facts(expr, source)
+            facts = expression_facts(expr, source) if isinstance(expr, str) else {"feature": "constant"}
             feature = facts.get("feature", "other")
             # coarse on purpose (one defect = few signatures): only the expression machinery involved, the rest is detail
             sig = {"part": "c", "expression_class": "pointer_escape" if feature.startswith("pointer_escape") else
                    feature if feature in ("regex", "hash_in_literal_text", "array_index_not_rfc6901", "no_such_body") else "plain"}
+            if location == "header":
+                declared = [p["name"] for p in dst_op.get("parameters", []) if p["in"] == "header"]
+                if name not in declared and name.lower() in {d.lower() for d in declared}:
+                    # fact from the document: the link spells a declared header of the target in another letter case
+                    sig["header_key_case"] = "differs_from_declaration"
+                    res.count("c_header_key_in_other_case")
             pdetail = detail | {"parameter": pname, "expression": expr, "reference": _plain(ref), "sent_on_wire": wire,
                                 "case_value": _plain(case_value), "location": location, "explicit_location": "." in pname,
                                 "target_by": by, **facts}
@@ -1076,6 +1163,10 @@ def judge_c(res: Result, item: dict, doc: dict, exchanges: list, machine: Any, e
                 res.count("c_undecided_null_value")
                 continue
             res.count("c_parameters_checked")
+            if not isinstance(expr, str) or feature == "constant":
+                res.count("c_constant_parameters_checked")
+                if not expected.value and expected.value is not None:
+                    res.count("c_falsy_constant_parameters_checked")
             same = case_value is not ABSENT and rtexpr.same(case_value, expected)
             if not same and location == "path" and isinstance(case_value, str) and isinstance(expected.value, str):
                 # Case.path_parameters holds text as it goes into the URL (generated values are percent-encoded there too):
@@ -1107,6 +1198,11 @@ def judge_c(res: Result, item: dict, doc: dict, exchanges: list, machine: Any, e
             if unresolved:
                 res.count("c_unresolvable_bodies")
                 continue  # sentinel scan above covers "never sent"
+            falsy_body = not isinstance(expected_body, Value) and not expected_body and expected_body is not None
+            if falsy_body:
+                # the fact goes into the signature: a defect that drops only falsy link bodies is a defect of its own
+                sig = sig | {"falsy_value": True}
+                res.count("c_falsy_bodies_checked_merge_" + ("on" if merge else "off"))
             if sent.request_body is ABSENT:
                 res.violation({**sig, "kind": "link_body_not_sent"}, bdetail)
                 continue
@@ -1234,7 +1330,21 @@ def vacuity(total: Result, tier: str) -> list[str]:
         ("a_link_state_machine_refused", "(a) as_state_machine() never refused a malformed link"),
         ("b_agree_usable", "(b) no link was usable"),
         ("b_agree_not_usable", "(b) no link was unusable"),
-    ):
+        # review round 2
+        ("a_values_agree_in_round2_context", "(a) nothing evaluated in the 7th context"),
+        ("a_values_agree_on_round2_strings", "(a) none of the letter-case / pointer-token strings evaluated to a value"),
+        ("a_link_header_case_variants", "(a) no link with a header name in another letter case"),
+        ("b_agree_usable_at_range_limit", "(b) no link usable from a status at a range limit"),
+        ("b_agree_not_usable_at_range_limit", "(b) no link unusable from a status at a range limit"),
+        ("b_agree_2.0_usable", "(b) no usable link in a Swagger 2.0 document"),
+        ("b_agree_3.1.0_usable", "(b) no usable link in an OpenAPI 3.1 document"),
+        ("c_constant_parameters_checked", "(c) no constant link parameter was compared"),
+        ("c_falsy_constant_parameters_checked", "(c) no falsy constant link parameter was compared"),
+        ("c_falsy_bodies_checked_merge_on", "(c) no falsy link body with merge_body on"),
+        ("c_falsy_bodies_checked_merge_off", "(c) no falsy link body with merge_body off"),
+        ("c_header_key_in_other_case", "(c) no link parameter naming a header in another letter case"),
+        ("c_same_link_followed_twice_from_one_source", "(c) no link was followed twice from the same source response"),
+    ) + tuple(("c_round2_followed:" + name, f"(c) the links of shape {name} were never followed") for name in c10_extra.EXTRA_SHAPES):
         if c.get(key, 0) == 0:
             out.append(msg)
     return out
